@@ -267,9 +267,27 @@ fn stream_refcheck(rep: &mut Report, drv: &mut Driver, rng: &mut Rng, n: usize) 
         st.tally(match &imp { None => "accepted", Some(_) => "rejected" });
         let r = drv.call("ref_check", &[if dt { "1" } else { "0" }, &t])?;
         let model: Option<String> = match r.first().map(|x| x.as_str()) { Some("none") => None, Some("some") => Some(r.get(1).cloned().unwrap_or_default()), _ => Some(format!("?{}", r.join("|"))) };
-        if imp == model { st.exact += 1; } else {
+        let mut ok = imp == model;
+        if !ok {
             rep.violation(Violation { kind: "correspondence", stream: st.name.clone(), signature: "C02:refcheck-model".into(), what: format!("invalid_reference({t:?}, {dt}) = {imp:?} in the code, {model:?} in the model"), replay: json!({"string": t, "doctype": dt}), confirmed_on_impl: false });
         }
+        // the whole per-event check of InputList::from_reader (reference check, then "]]>" in character data /
+        // '<' in a start tag), through a real-SVG document that copies the string as written: the transform
+        // succeeds exactly when the model's readerAccepts says so
+        if !t.contains('<') {
+            let with_cdend = if rng.chance(1, 5) { format!("{t}{}", rng.pick(&["]]>", " ]]> ", "]] >", "]>"])) } else { t.clone() };
+            let pre = if dt { "<!DOCTYPE svg>" } else { "" };
+            let doc = format!("{pre}<svg xmlns=\"http://www.w3.org/2000/svg\"><desc>{with_cdend}</desc></svg>");
+            let r = drv.call("reader_accepts", &["1", if dt { "1" } else { "0" }, &with_cdend])?;
+            let m_ok = r.first().map(|x| x.as_str()) == Some("ok");
+            let i_ok = matches!(transform(&doc, &default_cfg()), Ok(Ok(_)));
+            st.tally(if i_ok { "document-accepted" } else { "document-refused" });
+            if m_ok != i_ok {
+                ok = false;
+                rep.violation(Violation { kind: "correspondence", stream: st.name.clone(), signature: "C02:reader-model".into(), what: format!("character data {with_cdend:?} (doctype {dt}): the transform {} it, the model's readerAccepts {} it", if i_ok { "accepts" } else { "refuses" }, if m_ok { "accepts" } else { "refuses" }), replay: json!({"input": doc, "has_root": true}), confirmed_on_impl: false });
+            }
+        }
+        if ok { st.exact += 1; }
     }
     rep.streams.push(st);
     Ok(())
